@@ -8,7 +8,11 @@ tie (translator): translators/tr_exprs.py turns the arithmetic of Segment.length
 tie (correspondence): the same terms read over PrimFloat are evaluated by the kernel on the generated inputs and
   compared in Coq with what the real code returned (bit-exact for get_actual_proximal, 2^-40 relative otherwise).
 property predicate on the implementation: 60-digit decimal evaluation of the closed forms from the exact input
-  doubles, metamorphic pairs (swap, translate, scale), cell-level getters against exact rational interpolation.
+  doubles, metamorphic pairs (swap, translate, scale), cell-level getters against exact rational interpolation;
+  histories: the SAME Cell / Segment object is queried, modified in place (translate, scale, fraction_along, point
+  replacement, re-parenting, ...) and queried again, against a freshly built object with the same current data.
+purity: tr_exprs refuses decorators (except @property on the Segment properties), rebinding / patching of the translated
+  methods and any access to state other than the arguments.
 """
 import json
 import math
@@ -225,6 +229,178 @@ def gen_cell(rng, maxdepth):
     return {"exact": exact, "chain": chain, "ids": ids, "extra": extra, "order": order}
 
 
+# ------------------------------------------------------------------ histories: query, modify the same object in place, query again
+def hx(v):
+    return float(v).hex()
+
+
+def hist_cell(chain, ids, extra=1):
+    return {"chain": [{"prox": [hx(x) for x in sg["prox"]] if sg["prox"] is not None else None,
+                       "dist": [hx(x) for x in sg["dist"]], "fract": hx(sg["fract"])} for sg in chain],
+            "ids": ids, "extra": extra, "order": list(range(len(chain) + extra))[::-1]}
+
+
+def fixed_histories():
+    """the same in every run: a child attached part-way along its parent (and at its ends), each kind of in-place change"""
+    out = []
+    for f in (0.25, 1.0, 0.0):
+        for parent_has_prox in (True, False):
+            chain = [{"prox": None, "dist": [8.0, 12.0, 0.0, 1.0], "fract": f},
+                     {"prox": [0.0, 0.0, 0.0, 4.0] if parent_has_prox else None, "dist": [16.0, 0.0, 0.0, 2.0], "fract": 0.5},
+                     {"prox": [-4.0, -8.0, 2.0, 6.0], "dist": [0.0, 8.0, 0.0, 4.0], "fract": 1.0}]
+            ids = [5, 3, 0]
+            cell = hist_cell(chain, ids)
+            for steps in (
+                [{"op": "translate", "t": [hx(3.5), hx(-2.25), hx(10.0)]}],
+                [{"op": "scale", "k": hx(2.0)}], [{"op": "scale", "k": hx(0.25)}],
+                [{"op": "set_fract", "seg": 5, "f": hx(0.75)}], [{"op": "set_fract", "seg": 5, "f": hx(1.0)}],
+                [{"op": "set_fract", "seg": 3, "f": hx(0.125)}],
+                [{"op": "move_distal", "seg": 3, "d": [hx(1.0), hx(2.0), hx(-4.0)]}],
+                [{"op": "move_distal", "seg": 0, "d": [hx(0.5), hx(0.0), hx(3.0)]}],
+                [{"op": "move_proximal", "seg": 0, "d": [hx(2.0), hx(-1.0), hx(0.5)]}],
+                [{"op": "set_diameter", "seg": 3, "v": hx(5.0)}],
+                [{"op": "replace_distal", "seg": 3, "pt": [hx(20.0), hx(4.0), hx(-2.0), hx(3.0)]}],
+                [{"op": "replace_distal", "seg": 0, "pt": [hx(1.0), hx(9.0), hx(1.0), hx(2.5)]}],
+                [{"op": "reparent", "seg": 5, "to": 0, "f": hx(0.5)}], [{"op": "reparent", "seg": 5, "to": 0, "f": hx(1.0)}],
+                [{"op": "reparent", "seg": 5, "to": 3, "f": hx(0.0)}],
+                [{"op": "requery"}, {"op": "translate", "t": [hx(-1.0), hx(0.5), hx(0.0)]}, {"op": "scale", "k": hx(4.0)},
+                 {"op": "set_fract", "seg": 5, "f": hx(0.5)}, {"op": "replace_distal", "seg": 3, "pt": [hx(2.0), hx(2.0), hx(2.0), hx(2.0)]}],
+            ):
+                out.append({"cell": cell, "steps": steps})
+            if parent_has_prox:
+                out.append({"cell": cell, "steps": [{"op": "replace_proximal", "seg": 3, "pt": [hx(1.0), hx(1.0), hx(1.0), hx(3.0)]}]})
+                out.append({"cell": cell, "steps": [{"op": "move_proximal", "seg": 3, "d": [hx(0.0), hx(4.0), hx(0.0)]}]})
+                out.append({"cell": cell, "steps": [{"op": "drop_proximal", "seg": 3}]})
+    # a segment with its own proximal: swapping its end points in place
+    chain = [{"prox": [1.0, 2.0, 3.0, 2.0], "dist": [5.0, -2.0, 3.0, 1.0], "fract": 1.0},
+             {"prox": [0.0, 0.0, 0.0, 2.0], "dist": [1.0, 2.0, 3.0, 2.0], "fract": 1.0}]
+    out.append({"cell": hist_cell(chain, [2, 1]), "steps": [{"op": "swap_ends", "seg": 2}, {"op": "drop_proximal", "seg": 2},
+                                                            {"op": "set_fract", "seg": 2, "f": hx(0.5)}]})
+    return out
+
+
+def gen_history(rng, maxdepth):
+    c = gen_cell(rng, maxdepth)
+    while not c["exact"] or len(c["chain"]) < 2:
+        c = gen_cell(rng, maxdepth)
+    chain, ids = c["chain"], c["ids"]
+    depth = len(chain)
+    steps = []
+    for _ in range(rng.randint(1, 5)):
+        i = rng.randrange(depth)
+        ops = ["translate", "scale", "move_distal", "set_diameter", "replace_distal", "requery"]
+        if i < depth - 1:
+            ops += ["set_fract", "set_fract", "reparent"]
+        if chain[i]["prox"] is not None:
+            ops += ["move_proximal", "replace_proximal", "swap_ends"]
+            if i < depth - 1:
+                ops.append("drop_proximal")
+        op = rng.choice(ops)
+        st = {"op": op}
+        if op == "translate":
+            st["t"] = [hx(dyadic(rng, 8, 3)) for _ in range(3)]
+        elif op == "scale":
+            st["k"] = hx(2.0 ** rng.randint(-3, 3))
+        elif op in ("move_distal", "move_proximal"):
+            st.update(seg=ids[i], d=[hx(dyadic(rng, 8, 3)) for _ in range(3)])
+        elif op == "set_diameter":
+            st.update(seg=ids[i], v=hx(abs(dyadic(rng, 8, 3)) + 0.125))
+        elif op in ("replace_distal", "replace_proximal"):
+            st.update(seg=ids[i], pt=[hx(dyadic(rng, 10, 3)) for _ in range(3)] + [hx(abs(dyadic(rng, 8, 3)) + 0.125)])
+        elif op == "set_fract":
+            st.update(seg=ids[i], f=hx(rng.choice(FRACTS + [0.0, 1.0])))
+        elif op == "reparent":
+            st.update(seg=ids[i], to=ids[rng.randrange(i + 1, depth)], f=hx(rng.choice(FRACTS + [0.0, 1.0])))
+        elif op in ("swap_ends", "drop_proximal"):
+            st["seg"] = ids[i]
+        steps.append(st)
+    return {"cell": hist_cell(chain, ids, c["extra"]), "steps": steps}
+
+
+def unchain(ch):
+    return [{"prox": [float.fromhex(v) for v in sg["prox"]] if sg["prox"] is not None else None,
+             "dist": [float.fromhex(v) for v in sg["dist"]], "fract": float.fromhex(sg["fract"])} for sg in ch]
+
+
+def check_histories(ck, hists, results):
+    names = ["length", "area", "volume"]
+    for h, snaps in zip(hists, results):
+        ops = ["initial"] + [st["op"] for st in h["steps"]]
+        ck.count(1, nontrivial_key=("hist", json.dumps(h, sort_keys=True)),
+                 sample={"kind": "history", "steps": h["steps"], "ids": h["cell"]["ids"]} if len(ck.samples) < 5 and len(h["steps"]) > 2 else None)
+        prev = None
+        for k, (op, sn) in enumerate(zip(ops, snaps)):
+            ck.tally("history:" + op)
+            hist_input = {"cell": h["cell"], "steps applied in place after the first query": h["steps"][:k]}
+            for j, sid in enumerate(h["cell"]["ids"]):
+                same, fresh = sn["same"][j], sn["fresh"][j]
+                # A. the queried-then-modified object must answer like a freshly built cell with the same data
+                if same != fresh:
+                    ck.witness("C12:history:%s" % op, "after the cell was queried and then modified in place (%s), segment %d is answered "
+                               "differently from a freshly built cell with the same data (state left over from earlier calls)" % (op, sid),
+                               input=hist_input, expected={"fresh cell": fresh}, observed={"same object": same},
+                               broken="translate:tr_exprs (the geometry methods are pure functions of the cell's current data)")
+                    continue
+                # B. ... and like the specification on the current data
+                chain = unchain(sn["chains"][j])
+                ap = ref_actual(chain)
+                got = same[0]
+                if isinstance(ap, str) or isinstance(got, str):
+                    okp = isinstance(ap, str) and isinstance(got, str)
+                else:
+                    okp = all(Fraction(float.fromhex(g)) == a for g, a in zip(got, ap))
+                if not okp:
+                    ck.witness("C12:history-value:actual_proximal", "get_actual_proximal differs from the specification on the current data",
+                               input=hist_input, expected=[float(a) for a in ap] if not isinstance(ap, str) else ap, observed=got)
+                    continue
+                want = {"length": "EXC", "area": "EXC", "volume": "EXC"} if isinstance(ap, str) else \
+                    ref_from_fractions(ap, [Fraction(v) for v in chain[0]["dist"]])
+                vals = {"length": unhex(same[1]), "area": unhex(same[2]), "volume": unhex(same[3])}
+                for n in names:
+                    if not close(vals[n], want[n]):
+                        ck.witness("C12:history-value:%s" % n, "Cell.get_segment_%s differs from the specification on the current data" % n,
+                                   input=hist_input, expected=str(want[n])[:30], observed=repr(vals[n]))
+                # C. translation / power-of-two scaling / end-point swap of the same object
+                # (a swap only leaves the swapped segment itself unchanged: its children hang on its distal end)
+                if prev is not None and (op in ("translate", "scale") or (op == "swap_ends" and h["steps"][k - 1]["seg"] == sid)):
+                    k_ = float.fromhex(h["steps"][k - 1]["k"]) if op == "scale" else 1.0
+                    pv = {"length": unhex(prev["same"][j][1]), "area": unhex(prev["same"][j][2]), "volume": unhex(prev["same"][j][3])}
+                    for n, pw in (("length", 1), ("area", 2), ("volume", 3)):
+                        w = pv[n] if isinstance(pv[n], str) else pv[n] * k_ ** pw
+                        if not fclose(vals[n], w):
+                            ck.witness("C12:history:%s:%s" % (op, n), "%s of segment %d is not %s after the cell was %s in place"
+                                       % (n, sid, "unchanged" if op != "scale" else "scaled by k^%d" % pw, op),
+                                       input=hist_input, expected=repr(w), observed=repr(vals[n]))
+            prev = sn
+
+
+def check_seghists(ck, hists, results):
+    for h, snaps in zip(hists, results):
+        ck.count(1, nontrivial_key=("seghist", json.dumps(h, sort_keys=True)))
+        for k, sn in enumerate(snaps):
+            ck.tally("segment-history:step")
+            if sn["same"] != sn["fresh"]:
+                ck.witness("C12:segment-history", "a Segment queried, then edited in place, answers differently from a fresh Segment with the "
+                           "same points", input={"coords": h["coords"], "edits": h["steps"][:k]}, expected=sn["fresh"], observed=sn["same"])
+                continue
+            c = [float.fromhex(v) for v in sn["coords"]]
+            ref = ref_segment(c)
+            for i, n in enumerate(["length", "volume", "area"]):
+                if not close(unhex(sn["same"][i]), ref[n]):
+                    ck.witness("C12:segment-history-value:%s" % n, "Segment.%s differs from the closed form after an in-place edit" % n,
+                               input={"coords": h["coords"], "edits": h["steps"][:k]}, expected=str(ref[n])[:30], observed=sn["same"][i])
+
+
+def gen_seghist(rng):
+    c = [dyadic(rng, 10, 3) for _ in range(3)] + [abs(dyadic(rng, 6, 3)) + 0.125] + [dyadic(rng, 10, 3) for _ in range(3)] \
+        + [abs(dyadic(rng, 6, 3)) + 0.125]
+    steps = []
+    for _ in range(rng.randint(1, 4)):
+        a = rng.choice(["x", "y", "z", "diameter"])
+        steps.append({"end": rng.choice("pd"), "attr": a, "v": hx(abs(dyadic(rng, 6, 3)) + 0.125 if a == "diameter" else dyadic(rng, 10, 3))})
+    return {"coords": [hx(v) for v in c], "steps": steps}
+
+
 # ------------------------------------------------------------------ the specification, in exact / 60-digit arithmetic
 def ref_segment(c):
     """closed forms from the exact input doubles -> {length, volume, area} as Decimal or 'EXC'"""
@@ -348,7 +524,8 @@ def parse_idx(s):
 def run(ck):
     ck.rule = ("segment cases: 9 generator classes (frustum, cylinder, sphere, coincident with unequal diameters, nearly "
                "coincident, shared coordinates, cone, dyadic, wide range) over 10^-6..10^6 (wide: 10^-30..10^30), each with "
-               "its swap / power-of-two scaling (dyadic: also translation and non-power-of-two scaling) partners; cell cases: "
+               "its swap / power-of-two scaling (dyadic: also translation and non-power-of-two scaling) partners; histories: a cell "
+               "queried, modified in place step by step and re-queried (99 fixed + random); cell cases: "
                "parent chains of depth 1..6 (thorough 1..12) with proximal-less segments and fraction_along in "
                "{0, 1, dyadic, random}; a case is non-trivial when the reference value is a non-zero number or an expected "
                "exception; distinct by (kind, inputs)")
@@ -409,6 +586,13 @@ def run(ck):
                                     "dist": [float(x).hex() for x in sg["dist"]], "fract": float(sg["fract"]).hex()}
                                    for sg in c["chain"]], "ids": c["ids"], "extra": c["extra"], "order": c["order"]}
                         for c in cells]}
+    hists = fixed_histories() + [gen_history(rng, 5) for _ in range(ck.n(60, 1500))]
+    seghists = [{"coords": [hx(v) for v in (0.0, 0.0, 0.0, 2.0, 3.0, 4.0, 0.0, 2.0)],
+                 "steps": [{"end": "d", "attr": "x", "v": hx(6.0)}, {"end": "p", "attr": "diameter", "v": hx(4.0)},
+                           {"end": "d", "attr": "y", "v": hx(0.0)}, {"end": "d", "attr": "x", "v": hx(0.0)}]}] \
+        + [gen_seghist(rng) for _ in range(ck.n(40, 1000))]
+    payload["hist"] = hists
+    payload["seghist"] = seghists
     res = ck.impl("c12_impl.py", payload, timeout=1200)
     souts, couts = res["seg"], res["cell"]
     couts = [[o[0] if isinstance(o[0], str) else [float.fromhex(v) for v in o[0]], o[1], o[2], o[3]] for o in couts]
@@ -478,6 +662,8 @@ def run(ck):
                                broken="Props_C12.v:C12_%s" % {"swap": "swap_end_points", "translate": "translation_invariant",
                                                                 "scale": "uniform_scaling"}[rel])
             ck.tally("metamorphic:" + rel)
+    check_histories(ck, hists, res["hist"])
+    check_seghists(ck, seghists, res["seghist"])
     for i, (c, o) in enumerate(zip(cells, couts)):
         chain = c["chain"]
         depth = len(chain)
